@@ -79,6 +79,9 @@ func (d *Decoder) unmarshal(val reflect.Value, tagType byte) error {
 	if u != nil {
 		return u.UnmarshalNBT(tagType, d.r)
 	}
+	if val.Kind() == reflect.Interface && val.NumMethod() != 0 {
+		return errors.New("cannot parse NBT into non-empty interface " + val.Type().String())
+	}
 
 	switch tagType {
 	default:
